@@ -1366,7 +1366,8 @@ theorem sflowRecordProd_le (fmt len : Nat) (b : Bytes) (r : FlowRecord)
       rw [hr] at h
       cases h
       simp only [Producer.sflowRecordProdCost]
-      have := Netflow.parseCost_le b1
+      have := Netflow.parseCost_le (b1.take (vs.getD 3 0))
+      have := List.length_take (i := vs.getD 3 0) (l := b1)
       split <;> omega
   · simp only [if_neg h1] at h
     have key : ∀ d, (∀ vs hd, d ≠ FlowData.raw vs hd) → Producer.sflowRecordProdCost ⟨fmt, len, d⟩ ≤ 44 * b.length := by
